@@ -1,5 +1,363 @@
-/- C14: statements in progress; this placeholder keeps the module buildable. -/
+/-
+C14 — JSON snapshots are canonical and lossless: go-snaps glue, relative to an explicit contract
+for the pretty printer (tidwall/pretty, a PARAMETER — `PrettySpec` is a hypothesis of the
+theorems below, never assumed globally).
+
+go-snaps' own part (snaps/matchJSON.go): `validateJSON` returns the caller's bytes (string /
+[]byte) or `json.Marshal(v)`; `takeJSONSnapshot(c, j) = strings.TrimSuffix(pretty.PrettyOptions(j,
+{SortKeys: true, Indent: " "}), "\n")`; `matchJSON` and `matchStandaloneJSON` share
+`validateJSON`, `applyJSONMatchers` and `takeJSONSnapshot` verbatim; the comparison is raw
+(no escaping).
+-/
 import GoSnaps.Model
+import GoSnaps.Driver
+import GoSnaps.Props.C13
+import GoSnaps.Props.C17
+import GoSnaps.Props.C19
 namespace GoSnaps.C14
-theorem handleError_counts (w : World) (msg : Text) : (handleError w msg).1.events.erred = w.events.erred + 1 := rfl
+
+open GoSnaps
+
+/-! ## 1. the contract of the pretty printer -/
+
+/-- `pretty sortKeys doc`; `tokens doc` = the document's token sequence (`none` = not valid
+JSON), insensitive to insignificant white space; `permEq` = "equal up to the order of object
+members".  All three are parameters. -/
+structure PrettySpec {Tok : Type} (pretty : Bool → Text → Text) (tokens : Text → Option (List Tok))
+    (permEq : List Tok → List Tok → Prop) : Prop where
+  /-- the output depends on the tokens only (white space between tokens is irrelevant) -/
+  ws_invariant : ∀ (s : Bool) (a b : Text) (ta : List Tok),
+    tokens a = some ta → tokens b = some ta → pretty s a = pretty s b
+  /-- with SortKeys the output does not depend on the member order -/
+  order_invariant : ∀ (a b : Text) (ta tb : List Tok),
+    permEq ta tb → tokens a = some ta → tokens b = some tb → pretty true a = pretty true b
+  /-- no token is lost, added or changed; without SortKeys none is moved -/
+  lossless : ∀ (s : Bool) (a : Text) (ta : List Tok), tokens a = some ta →
+    ∃ tp, tokens (pretty s a) = some tp ∧ (if s then permEq tp ta else tp = ta)
+  /-- the output of a valid document ends with exactly one newline -/
+  ends_nl : ∀ (s : Bool) (a : Text), tokens a ≠ none →
+    ∃ body, pretty s a = body ++ [nl] ∧ body.getLast? ≠ some nl
+  /-- a final newline is insignificant white space -/
+  tokens_nl : ∀ (b : Text), tokens (b ++ [nl]) = tokens b
+
+/-- `takeJSONSnapshot` (matchJSON.go:162-164) -/
+def takeJSONSnapshot (pretty : Bool → Text → Text) (sortKeys : Bool) (j : Text) : Text :=
+  trimNL (pretty sortKeys j)
+
+/-- the options go-snaps passes, read from the source on every run -/
+theorem default_sorts : Generated.prettySortKeys = true := by decide
+theorem default_indent : Generated.prettyIndent = [32] ∧ Generated.prettyPrefix = [] ∧
+    Generated.prettyWidth = 0 := by decide
+
+section Spec
+variable {Tok : Type} {pretty : Bool → Text → Text} {tokens : Text → Option (List Tok)}
+  {permEq : List Tok → List Tok → Prop}
+
+theorem tokens_trimNL (h : PrettySpec pretty tokens permEq) (t : Text) : tokens (trimNL t) = tokens t := by
+  unfold trimNL
+  cases hq : t.getLast? with
+  | none => rfl
+  | some c =>
+    simp only
+    split
+    · rename_i hc
+      subst hc
+      obtain ⟨b, rfl⟩ := List.getLast?_eq_some_iff.mp hq
+      rw [List.dropLast_concat, h.tokens_nl]
+    · rfl
+
+/-- the snapshot text is the printer's output without its final newline, and does not itself
+end with a newline -/
+theorem json_snapshot_body (h : PrettySpec pretty tokens permEq) (s : Bool) (j : Text)
+    (hv : tokens j ≠ none) :
+    pretty s j = takeJSONSnapshot pretty s j ++ [nl] ∧
+    (takeJSONSnapshot pretty s j).getLast? ≠ some nl := by
+  obtain ⟨body, hb, hl⟩ := h.ends_nl s j hv
+  unfold takeJSONSnapshot
+  rw [hb, trimNL_append]
+  exact ⟨rfl, hl⟩
+
+/-- **json_ws_invariant**: two documents with the same tokens (differing in insignificant
+white space only) have the same snapshot text -/
+theorem json_ws_invariant (h : PrettySpec pretty tokens permEq) (s : Bool) (a b : Text) (ta : List Tok)
+    (ha : tokens a = some ta) (hb : tokens b = some ta) :
+    takeJSONSnapshot pretty s a = takeJSONSnapshot pretty s b := by
+  unfold takeJSONSnapshot
+  rw [h.ws_invariant s a b ta ha hb]
+
+/-- **json_order_invariant**: with the options go-snaps uses (`SortKeys` as read from the
+source), two documents equal up to member order have the same snapshot text -/
+theorem json_order_invariant (h : PrettySpec pretty tokens permEq) (a b : Text) (ta tb : List Tok)
+    (hp : permEq ta tb) (ha : tokens a = some ta) (hb : tokens b = some tb) :
+    takeJSONSnapshot pretty Generated.prettySortKeys a = takeJSONSnapshot pretty Generated.prettySortKeys b := by
+  rw [default_sorts]
+  unfold takeJSONSnapshot
+  rw [h.order_invariant a b ta tb hp ha hb]
+
+/-- **json_lossless**: the snapshot text is a valid document with the input's tokens — the same
+sequence without SortKeys, the same up to member order with it.  (`trimNL` removed only the
+final newline, which is not a token: `tokens_trimNL`.) -/
+theorem json_lossless (h : PrettySpec pretty tokens permEq) (s : Bool) (j : Text) (tj : List Tok)
+    (hj : tokens j = some tj) :
+    ∃ tp, tokens (takeJSONSnapshot pretty s j) = some tp ∧ (if s then permEq tp tj else tp = tj) := by
+  obtain ⟨tp, h1, h2⟩ := h.lossless s j tj hj
+  exact ⟨tp, by unfold takeJSONSnapshot; rw [tokens_trimNL h, h1], h2⟩
+
+/-- **canonical**: the snapshot text is a fixed point — taking the snapshot of a stored
+snapshot gives the stored text again (so a stored entry fed back to `MatchJSON` passes) -/
+theorem json_idempotent (h : PrettySpec pretty tokens permEq) (s : Bool) (j : Text) (tj : List Tok)
+    (hj : tokens j = some tj) :
+    takeJSONSnapshot pretty s (takeJSONSnapshot pretty s j) = takeJSONSnapshot pretty s j := by
+  obtain ⟨tp, h1, h2⟩ := json_lossless h s j tj hj
+  cases s with
+  | false =>
+    simp only [Bool.false_eq_true, ↓reduceIte] at h2
+    subst h2
+    exact json_ws_invariant h false _ _ tp h1 hj
+  | true =>
+    simp only [↓reduceIte] at h2
+    unfold takeJSONSnapshot at h1 ⊢
+    rw [h.order_invariant _ j tp tj h2 h1 hj]
+
+end Spec
+
+/-! ## 2. the three input forms -/
+
+/-- the dynamic type switch of `validateJSON` -/
+inductive JInput (α : Type)
+  | str (s : Text)
+  | bytes (b : Text)
+  | val (v : α)
+
+/-- `validateJSON` (matchJSON.go:143-160); `valid` = gjson.Valid, `marshal` = json.Marshal -/
+def validateJSON {α : Type} (valid : Text → Bool) (marshal : α → Except Text Text) :
+    JInput α → Except Text Text
+  | .str s => if valid s then .ok s else .error Generated.go_errInvalidJSON
+  | .bytes b => if valid b then .ok b else .error Generated.go_errInvalidJSON
+  | .val v => marshal v
+
+/-- everything `matchJSON` and `matchStandaloneJSON` compute before touching the registry's
+result: the `pre` handed to the step functions -/
+def jsonPre {α : Type} (valid : Text → Bool) (marshal : α → Except Text Text)
+    (pretty : Bool → Text → Text) (ms : List (C15.Matcher C17.MErr)) (input : JInput α) : Except Text Text :=
+  match validateJSON valid marshal input with
+  | .error e => .error e
+  | .ok j => C17.pipeline (fun j => .ok j) ms (takeJSONSnapshot pretty Generated.prettySortKeys) j
+
+/-- **json_three_forms**: a string, the same bytes as `[]byte`, and a value that marshals to the
+same bytes produce the same `pre` — hence the same outcome, stored text and report -/
+theorem json_three_forms {α : Type} (valid : Text → Bool) (marshal : α → Except Text Text)
+    (pretty : Bool → Text → Text) (ms : List (C15.Matcher C17.MErr)) (j : Text) (v : α)
+    (hv : valid j = true) (hm : marshal v = .ok j) :
+    jsonPre valid marshal pretty ms (.str j) = jsonPre valid marshal pretty ms (.bytes j) ∧
+    jsonPre valid marshal pretty ms (.bytes j) = jsonPre valid marshal pretty ms (.val v) := by
+  simp [jsonPre, validateJSON, hv, hm]
+
+/-- without matchers the `pre` of a valid document is its snapshot text -/
+theorem jsonPre_plain {α : Type} (valid : Text → Bool) (marshal : α → Except Text Text)
+    (pretty : Bool → Text → Text) (j : Text) (hv : valid j = true) :
+    jsonPre valid marshal pretty [] (.str j) = .ok (takeJSONSnapshot pretty Generated.prettySortKeys j) := by
+  simp [jsonPre, validateJSON, hv, C17.pipeline, C15.applyMatchers]
+
+/-- an invalid string / byte slice: `pre` is the fixed error "invalid json", no matcher runs -/
+theorem jsonPre_invalid {α : Type} (valid : Text → Bool) (marshal : α → Except Text Text)
+    (pretty : Bool → Text → Text) (ms : List (C15.Matcher C17.MErr)) (j : Text) (hv : valid j = false) :
+    jsonPre valid marshal pretty ms (.str j) = .error Generated.go_errInvalidJSON ∧
+    jsonPre valid marshal pretty ms (.bytes j) = .error Generated.go_errInvalidJSON := by
+  simp [jsonPre, validateJSON, hv]
+
+/-- **invalid_writes_nothing** (instance of C17): `MatchJSON` and `MatchStandaloneJSON` on an
+invalid document: one failure carrying "invalid json", nothing written, in every mode -/
+theorem invalid_writes_nothing {α : Type} (valid : Text → Bool) (marshal : α → Except Text Text)
+    (pretty : Bool → Text → Text) (ms : List (C15.Matcher C17.MErr)) (j : Text) (hv : valid j = false)
+    (w : World) (c : Cfg) (caller tName : Text) (texec : Nat) :
+    let r := matchEntry w c caller tName texec .raw (jsonPre valid marshal pretty ms (.str j))
+    let r' := matchStandalone w c caller tName texec (jsonPre valid marshal pretty ms (.str j))
+    r.1.fs = w.fs ∧ r.2.writes = [] ∧ r.2.removed = [] ∧
+    r'.1.fs = w.fs ∧ r'.2.writes = [] ∧ r'.2.removed = [] ∧
+    (r.2.unsupported = none → r.2.events = [.error Generated.go_errInvalidJSON]) ∧
+    (r'.2.unsupported = none → r'.2.events = [.error Generated.go_errInvalidJSON]) := by
+  rw [(jsonPre_invalid valid marshal pretty ms j hv).1]
+  obtain ⟨a1, a2, a3⟩ := C17.matcher_error_no_write w c caller tName texec .raw Generated.go_errInvalidJSON
+  obtain ⟨b1, b2, b3⟩ := C17.matcher_error_no_write_standalone w c caller tName texec Generated.go_errInvalidJSON
+  exact ⟨a1, a2, a3, b1, b2, b3,
+    fun hs => (C17.matcher_error_one_failure w c caller tName texec .raw _ hs).1,
+    fun hs => (C17.matcher_error_one_failure_standalone w c caller tName texec _ hs).1⟩
+
+/-! ## 3. MatchJSON and MatchStandaloneJSON store the same text -/
+
+/-- in the driver both operations receive the pending document unchanged (no escaping, no
+re-rendering): the same `pre` reaches `matchEntry` (raw comparison) and `matchStandalone` -/
+theorem docOp_json_sajson (s : DState) (line c t : String) (cn tn : Nat) (cfg : Cfg) (nm : Text)
+    (pre : Except Text Text)
+    (hc : c.toNat? = some cn) (hcfg : lookupCfg s cn = some cfg)
+    (ht : t.toNat? = some tn) (hn : lookupName s tn = some nm) (hd : s.doc = some pre) :
+    (docOp s line "json" c t).1.w = (matchEntry s.w cfg s.caller nm tn .raw pre).1 ∧
+    (docOp s line "sajson" c t).1.w =
+      (matchStandalone s.w (if cfg.extension = [] then { cfg with extension := Generated.saJSONExt } else cfg)
+        s.caller nm tn pre).1 := by
+  have hcw : "Config.MatchStandaloneJSON: c.extension" ∉ Generated.configWrites := by decide
+  constructor <;> simp [docOp, hc, hcfg, ht, hn, hd, hcw]
+
+/-- **json_standalone_same**: from the same snapshot text `s`, on creation, the standalone file
+is `s` byte for byte and the multi-entry file gains the frame whose body is `s`: both store the
+same text -/
+theorem json_standalone_same (w : World) (c : Cfg) (p q rel rel' id s : Text)
+    (hp : (fsRead w.fs p).bind (getPrev id) = none) (hq : fsRead w.fs q = none)
+    (hc : Generated.shouldCreate w.env c.update = true) :
+    fsRead (standaloneTail w c q rel' s).1.fs q = some s ∧
+    fsRead (entryTail w c p rel id s .raw).1.fs p = some ((fsRead w.fs p).getD [] ++ frame ⟨id, s⟩) := by
+  constructor
+  · apply C19.standalone_exact
+    simp [standaloneTail, hq, hc]
+  · unfold entryTail
+    simp only [hp, hc, Bool.not_true, Bool.false_eq_true, ↓reduceIte, frameFmt_eq]
+    rw [C19.fsRead_fsWrite_same]
+    cases fsRead w.fs p <;> rfl
+
+/-- raw replay: the stored body equals the snapshot text ⇒ pass, nothing written -/
+theorem json_replay (w : World) (c : Cfg) (p rel id s : Text) (line : Nat)
+    (h : (fsRead w.fs p).bind (getPrev id) = some (s, line)) :
+    let r := entryTail w c p rel id s .raw
+    r.2.events = [] ∧ r.2.writes = [] ∧ r.1.fs = w.fs ∧
+    r.1.events = { w.events with passed := w.events.passed + 1 } := by
+  unfold entryTail
+  simp [h, prettyDiff]
+
+/-- hence a re-indented or member-reordered document passes against the stored entry -/
+theorem json_replay_equivalent {Tok : Type} {pretty : Bool → Text → Text}
+    {tokens : Text → Option (List Tok)} {permEq : List Tok → List Tok → Prop}
+    (hs : PrettySpec pretty tokens permEq) (a b : Text) (ta tb : List Tok)
+    (hp : permEq ta tb) (ha : tokens a = some ta) (hb : tokens b = some tb)
+    (w : World) (c : Cfg) (p rel id : Text) (line : Nat)
+    (h : (fsRead w.fs p).bind (getPrev id) = some (takeJSONSnapshot pretty Generated.prettySortKeys a, line)) :
+    let r := entryTail w c p rel id (takeJSONSnapshot pretty Generated.prettySortKeys b) .raw
+    r.2.events = [] ∧ r.2.writes = [] ∧ r.1.fs = w.fs := by
+  rw [← json_order_invariant hs a b ta tb hp ha hb]
+  have := json_replay w c p rel id _ line h
+  exact ⟨this.1, this.2.1, this.2.2.1⟩
+
+/-- and a document whose snapshot text differs is reported (raw comparison: every byte counts) -/
+theorem json_mismatch_reported (w : World) (c : Cfg) (p rel id s s' : Text) (line : Nat)
+    (h : (fsRead w.fs p).bind (getPrev id) = some (s, line)) (hne : s' ≠ s)
+    (hu : Generated.shouldUpdate w.env c.update = false) :
+    let r := entryTail w c p rel id s' .raw
+    (∃ d, d ≠ [] ∧ r.2.events = [.error d]) ∧ r.2.writes = [] ∧ r.1.fs = w.fs := by
+  have hd : prettyDiff s s' rel line ≠ [] :=
+    fun he => hne ((C13.report_empty_iff _ _ _ _).mp he).symm
+  unfold entryTail
+  simp only [h, hd, ↓reduceIte, hu, Bool.not_false]
+  exact ⟨⟨_, hd, rfl⟩, rfl, rfl⟩
+
+/-! ## 4. the contract is satisfiable: a toy language -/
+
+namespace Toy
+
+/-- documents over '0' '1' (tokens) and ' ' '\n' (white space) -/
+def isTok (c : Byte) : Bool := c = 48 || c = 49
+def isWs (c : Byte) : Bool := c = 32 || c = 10
+
+def tokens (t : Text) : Option (List Byte) :=
+  if t.all (fun c => isTok c || isWs c) then some (t.filter isTok) else none
+
+/-- multiset equality, stated through counts -/
+def permEq (a b : List Byte) : Prop := ∀ x, a.count x = b.count x
+
+/-- canonical order: all '0' then all '1' -/
+def sorted (ts : List Byte) : List Byte := List.replicate (ts.count 48) 48 ++ List.replicate (ts.count 49) 49
+
+def pretty (sortKeys : Bool) (t : Text) : Text :=
+  (if sortKeys then sorted (t.filter isTok) else t.filter isTok) ++ [nl]
+
+theorem tokens_some {t : Text} {ts : List Byte} (h : tokens t = some ts) :
+    ts = t.filter isTok ∧ ∀ c ∈ ts, isTok c = true := by
+  unfold tokens at h
+  split at h
+  · cases h; exact ⟨rfl, fun c hc => (List.mem_filter.mp hc).2⟩
+  · cases h
+
+theorem tokens_of_toks (x : List Byte) (hx : ∀ c ∈ x, isTok c = true) : tokens (x ++ [nl]) = some x := by
+  unfold tokens
+  have h1 : (x ++ [nl]).all (fun c => isTok c || isWs c) = true := by
+    simp only [List.all_append, List.all_cons, List.all_nil, Bool.and_true, Bool.and_eq_true, List.all_eq_true]
+    exact ⟨fun c hc => by simp [hx c hc], by decide⟩
+  have h2 : (x ++ [nl]).filter isTok = x := by
+    rw [List.filter_append, List.filter_eq_self.mpr hx]
+    have : [nl].filter isTok = [] := by decide
+    rw [this]; simp
+  simp [h1, h2]
+
+theorem sorted_toks (ts : List Byte) : ∀ c ∈ sorted ts, isTok c = true := by
+  intro c hc
+  simp only [sorted, List.mem_append, List.mem_replicate] at hc
+  rcases hc with ⟨_, rfl⟩ | ⟨_, rfl⟩ <;> decide
+
+theorem sorted_perm (ts : List Byte) (h : ∀ c ∈ ts, isTok c = true) : permEq (sorted ts) ts := by
+  intro x
+  simp only [sorted, List.count_append, List.count_replicate]
+  by_cases h0 : x = 48
+  · subst h0; simp
+  · by_cases h1 : x = 49
+    · subst h1; simp
+    · have hx : x ∉ ts := by
+        intro hm
+        have := h x hm
+        simp [isTok, h0, h1] at this
+      have e0 : ((48 : Byte) == x) = false := by simpa using fun e => h0 e.symm
+      have e1 : ((49 : Byte) == x) = false := by simpa using fun e => h1 e.symm
+      simp [e0, e1, List.count_eq_zero_of_not_mem hx]
+
+theorem getLast_tok (x : List Byte) (hx : ∀ c ∈ x, isTok c = true) : x.getLast? ≠ some nl := by
+  intro h
+  obtain ⟨ys, rfl⟩ := List.getLast?_eq_some_iff.mp h
+  have := hx nl (by simp)
+  revert this; decide
+
+/-- the toy printer meets every law of the contract -/
+theorem spec : PrettySpec pretty tokens permEq where
+  ws_invariant s a b ta ha hb := by
+    have h1 := (tokens_some ha).1
+    have h2 := (tokens_some hb).1
+    simp only [pretty, ← h1, ← h2]
+  order_invariant a b ta tb hp ha hb := by
+    have h1 := (tokens_some ha).1
+    have h2 := (tokens_some hb).1
+    simp only [pretty, ↓reduceIte, ← h1, ← h2, sorted, hp 48, hp 49]
+  lossless s a ta ha := by
+    obtain ⟨h1, h2⟩ := tokens_some ha
+    cases s with
+    | false =>
+      refine ⟨ta, ?_, by simp⟩
+      simp only [pretty, Bool.false_eq_true, ↓reduceIte, ← h1]
+      exact tokens_of_toks ta h2
+    | true =>
+      refine ⟨sorted ta, ?_, by simpa using sorted_perm ta h2⟩
+      simp only [pretty, ↓reduceIte, ← h1]
+      exact tokens_of_toks _ (sorted_toks ta)
+  ends_nl s a ha := by
+    cases s with
+    | false =>
+      exact ⟨a.filter isTok, by simp [pretty], getLast_tok _ (fun c hc => (List.mem_filter.mp hc).2)⟩
+    | true =>
+      exact ⟨sorted (a.filter isTok), by simp [pretty], getLast_tok _ (sorted_toks _)⟩
+  tokens_nl b := by
+    have hw : (isTok nl || isWs nl) = true := by decide
+    have hf : [nl].filter isTok = [] := by decide
+    simp [tokens, List.all_append, List.filter_append, hw, hf]
+
+/-- "1 0\n 1" and " 1 1  0": same tokens up to order ⇒ same snapshot "011" (no final newline);
+without sorting the token order is kept -/
+example :
+    takeJSONSnapshot pretty true [49, 32, 48, 10, 32, 49] = [48, 49, 49] ∧
+    takeJSONSnapshot pretty true [32, 49, 32, 49, 32, 32, 48] = [48, 49, 49] ∧
+    takeJSONSnapshot pretty false [49, 32, 48, 10, 32, 49] = [49, 48, 49] ∧
+    takeJSONSnapshot pretty true [48, 49, 49] = [48, 49, 49] ∧
+    tokens [49, 50] = none := by decide
+
+example : takeJSONSnapshot pretty Generated.prettySortKeys [49, 32, 48, 10, 32, 49] =
+    takeJSONSnapshot pretty Generated.prettySortKeys [32, 49, 32, 49, 32, 32, 48] :=
+  json_order_invariant spec _ _ [49, 48, 49] [49, 49, 48] (by intro x; simp only [List.count_cons, List.count_nil]; omega) (by decide) (by decide)
+
+end Toy
+
 end GoSnaps.C14
